@@ -626,6 +626,7 @@ pub fn mon_amp(_scn: &Scenario, r: &Record, out: &mut V) {
         .filter_map(|d| d.delivered_at.first().copied())
         .min()
         .unwrap_or(u64::MAX);
+    let first_client_addr = r.dgrams.iter().find(|d| d.from == CLIENT).map(|d| d.src);
     let mut sent: u64 = 0;
     for d in r.dgrams.iter().filter(|d| d.from == SERVER) {
         if d.t >= validated_at {
@@ -636,6 +637,30 @@ pub fn mon_amp(_scn: &Scenario, r: &Record, out: &mut V) {
             v(out, "amp.limit", format!("server started datagram #{} ({} bytes) at {} us to an unvalidated address after already sending {} bytes with only {} bytes received", d.idx, d.payload.len(), d.t, sent, received));
         }
         sent += d.payload.len() as u64;
+    }
+    // the same limit applies to every further client address (migration / rebinding) until that path is
+    // validated: the server processes a PATH_RESPONSE after the first datagram from the new address
+    let mut addrs: Vec<std::net::SocketAddr> = Vec::new();
+    for d in r.dgrams.iter().filter(|d| d.from == CLIENT) {
+        if Some(d.src) != first_client_addr && !addrs.contains(&d.src) {
+            addrs.push(d.src);
+        }
+    }
+    for addr in addrs {
+        let first_rx = r.dgrams.iter().filter(|d| d.from == CLIENT && d.src == addr).filter_map(|d| d.delivered_at.first().copied()).min();
+        let Some(first_rx) = first_rx else { continue };
+        let validated = r.rx.iter().filter(|p| p.ep == SERVER && p.t >= first_rx && p.frames.iter().any(|f| matches!(f, F::PathResponse(_)))).map(|p| p.t).min().unwrap_or(u64::MAX);
+        let mut sent: u64 = 0;
+        for d in r.dgrams.iter().filter(|d| d.from == SERVER && d.dst == addr) {
+            if d.t >= validated {
+                break;
+            }
+            let received: u64 = r.dgrams.iter().filter(|c| c.from == CLIENT && c.src == addr).map(|c| c.delivered_at.iter().filter(|t| **t <= d.t).count() as u64 * c.delivered_len as u64).sum();
+            if sent >= 3 * received {
+                v(out, "amp.new_path_limit", format!("server started datagram #{} ({} bytes) at {} us to the unvalidated new address {} after already sending {} bytes there with only {} bytes received from it", d.idx, d.payload.len(), d.t, addr, sent, received));
+            }
+            sent += d.payload.len() as u64;
+        }
     }
 }
 
